@@ -168,7 +168,11 @@ class C14(Check):
                     for i in range(scn["nvalues"]):
                         rng = random.Random(scn["value_seed"] * 1000003 + i * 7919 + len(k) + (1 if direction[0] == "o" else 2))
                         v = V.gen_composite(rng, wsec, in_range=True, p_omit=0.05)
-                        data = pydsdl.serialize(wnode.types[k], v)
+                        try:
+                            data = pydsdl.serialize(wnode.types[k], v)
+                        except Exception as ex:
+                            out.fail("C14." + direction, "%s: the writer (its own revision, valid value %r) raised %s: %s" % (k, v, type(ex).__name__, ex), "writer-raised:" + type(ex).__name__)
+                            continue
                         ref_bytes, marks = R.encode(wres, k, 0, v)
                         if data != ref_bytes:
                             out.fail("C14." + direction, "%s: writer bytes differ from the reference peer" % k, "writer-bytes")
